@@ -512,7 +512,8 @@ def run(tier, seed, replay=None):
         cases = [d["replay"]["case"]] if "case" in d.get("replay", {}) else []
     else:
         cases = vf.load_corpus(PROP)
-        n = 36 if tier == "quick" else 260
+        n = 24 if tier == "quick" else 260
+        n = int(os.environ.get("VERIF_C16_CASES", n))      # smaller budgets for mutation experiments only
         for i in range(n):
             cases.append(gen_case(r.rng, tier, 1000 + i))
         if tier == "thorough":
